@@ -17,7 +17,8 @@ RULE = ("archives with 1-3 versions x prior project states {empty, holding one o
         "the on-disk state differs) for each archive x prior state, each surviving state checked after ordinary recovery and used as "
         "the start state of a second restore. oracle: unless the command reported success, committed rows and the digest of every "
         "previously recorded directory are unchanged; on success every archived row is committed with its directory. non-trivial = "
-        "faulted restore (corrupted archive, conflicting prior state or crash); distinct = distinct (archive, prior, fault)")
+        "faulted restore (corrupted archive, conflicting prior state or crash); distinct = distinct (archive, prior, fault)"
+        ' A further prior state holds an index still in format 1 (the restoring process migrates it first).')
 ASSUMPTIONS = [
     "crash = process death at Python-line granularity (all Python frames, so shutil.copytree steps are points); points inside one SQLite "
     "commit or inside the external tar are not cut: SQLite's atomic commit and the kernel's rename/mkdir atomicity are trusted",
